@@ -299,7 +299,7 @@ struct VecTarget
             memcpy(p, e.data(), x.z);
             return adopt_sorted(x, want, name.c_str());
         }
-        if (((uint64_t)(key < 0 ? -key : key) >> 5) % 6 == 0)
+        if (((uint64_t)(key < 0 ? -key : key) >> 5) % 6 == 5)
         { // the re-sorting step alone on a sequence that is sorted already, empty and one-element sequences included: nothing may change
             std::string const sname0 = nm(which == 0 ? "sort_fore" : "sort_back");
             c.st.add(x.M.empty() ? "probe.sort_step_on_empty_sequence" : x.M.size() == 1 ? "probe.sort_step_on_single_element" : "probe.sort_step_on_sorted_sequence");
